@@ -10763,3 +10763,87 @@ func addrOfLoad(v ssa.Value) ssa.Value {
 	}
 	return v
 }
+
+// LIMIT-REFUSES (C18): a limit on what is read of a request refuses what is longer; it does not cut it.
+func ruleLimitRefuses(w *World, r *Report) {
+	r.Rule("LIMIT-REFUSES", "where the service layer reads a request through io.LimitReader, the function that does so also compares the length of what it read with the limit it gave (one side of a comparison derives from `len`, the other from the value the limit derives from): a body that is simply cut at the limit is handed on as if it were the request — the first megabyte of a fact, or a prefix that happens to parse — instead of being refused", 0)
+	n := 0
+	for _, fn := range w.Funcs {
+		if p := w.RelPkg(fn); (p != "service" && p != "core") || isTestFile(w, fn) || len(fn.Blocks) == 0 {
+			continue
+		}
+		allInstrs(fn, func(in ssa.Instruction) {
+			c := callOf(in)
+			if c == nil || c.StaticCallee() == nil || c.StaticCallee().Pkg == nil || c.StaticCallee().Pkg.Pkg.Path() != "io" || c.StaticCallee().Name() != "LimitReader" || len(c.Args) != 2 {
+				return
+			}
+			n++
+			key := "fn=" + fname(fn) + " limit#" + itoa(n)
+			sources := func(v ssa.Value) map[string]bool {
+				out := map[string]bool{}
+				dependsOn(v, func(x ssa.Value) bool {
+					switch y := x.(type) {
+					case *ssa.Global:
+						out["g:"+y.Name()] = true
+					case *ssa.Parameter:
+						out["p:"+y.Name()] = true
+					case *ssa.FieldAddr:
+						if _, f, _, ok := fieldOf(y); ok {
+							out["f:"+f] = true
+						}
+					}
+					return false
+				})
+				return out
+			}
+			lim := sources(c.Args[1])
+			if cst, isC := c.Args[1].(*ssa.Const); isC && cst.Value != nil {
+				lim["c:"+cst.Value.ExactString()] = true
+			}
+			isLen := func(v ssa.Value) bool {
+				return dependsOn(v, func(x ssa.Value) bool {
+					cc, ok := x.(*ssa.Call)
+					if !ok {
+						return false
+					}
+					b, ok := cc.Common().Value.(*ssa.Builtin)
+					return ok && b.Name() == "len"
+				})
+			}
+			sharesLimit := func(v ssa.Value) bool {
+				for s := range sources(v) {
+					if lim[s] {
+						return true
+					}
+				}
+				if cst, isC := v.(*ssa.Const); isC && cst.Value != nil && lim["c:"+cst.Value.ExactString()] {
+					return true
+				}
+				return false
+			}
+			compared := false
+			allInstrs(fn, func(x ssa.Instruction) {
+				b, ok := x.(*ssa.BinOp)
+				if !ok {
+					return
+				}
+				switch b.Op {
+				case token.LSS, token.GTR, token.LEQ, token.GEQ, token.EQL, token.NEQ:
+				default:
+					return
+				}
+				if (isLen(b.X) && sharesLimit(b.Y)) || (isLen(b.Y) && sharesLimit(b.X)) {
+					compared = true
+				}
+			})
+			if compared {
+				r.ok("LIMIT-REFUSES", key, w.PosOf(in), "the length of what was read is compared with the limit")
+			} else {
+				r.violation("LIMIT-REFUSES", "fn="+fname(fn), w.PosOf(in), "the request is read through a LimitReader and nothing compares the length of what came out with the limit: a longer body is cut and processed as if it were complete")
+			}
+		})
+	}
+	if n == 0 {
+		r.ok("LIMIT-REFUSES", "scope=service,core", "", "no request is read through io.LimitReader")
+	}
+}
